@@ -4,7 +4,7 @@
 set -u
 D=$(realpath "$1"); TIER=${2:-quick}
 PID=$(python3 -c "import json;print(json.load(open('$D/meta.json'))['property'])")
-cd /verif
+cd "$(dirname "$0")/.."
 exec 9>/root/repo.lock; flock 9
 if ! git -C /repo diff --quiet; then echo "$D: /repo is dirty, refusing"; exit 2; fi
 git -C /repo apply "$D/patch.diff" || { echo "$D: patch does not apply"; exit 2; }
